@@ -109,8 +109,15 @@ static void crash_dump(void)
 extern "C"
 #endif
 void __sanitizer_set_death_callback(void (*)(void));
+/* thorough tier: the work of one check is split over VERIF_SHARD=i/K processes; SH(x) is this process's share of x iterations, every shard draws its own
+ * random stream, one-off scenarios run in shard 0 (ONCE) or in the shard whose number they name (SHARD_IS) */
+static int g_shard = 0, g_shards = 1;
+#define SH(x) ((int)((((long long)(x)) + g_shards - 1) / g_shards))
+#define ONCE (g_shard == 0)
+#define SHARD_IS(k) (g_shard == (int)((k) % g_shards))
 static void harness_init(const char* casePath, const char* crashPath, u64 seed)
 {
+    { const char* e = getenv("VERIF_SHARD"); int a, b; if (e && sscanf(e, "%d/%d", &a, &b) == 2 && b >= 1 && a >= 0 && a < b) { g_shard = a; g_shards = b; if (b > 1) seed = seed * 1000003ull + (u64)a * 7919ull + 1; } }
     rseed(seed);
     if (casePath) { g_casef = fopen(casePath, "wb"); if (!g_casef) { perror(casePath); exit(3); } setvbuf(g_casef, NULL, _IOFBF, 1 << 20); }
     g_crashPath = crashPath;
